@@ -346,7 +346,9 @@ class Ctx:
             raise BuildError("C++ build of %s failed:\n%s" % (name, p.stderr[-4000:]))
         os.replace(tmp, exe)
         # keep the cache small: drop older binaries of the same name
-        olds = sorted(glob.glob(os.path.join(cdir, name + "_*")), key=os.path.getmtime)
+        olds = sorted((o for o in glob.glob(os.path.join(cdir, name + "_*"))
+                       if re.fullmatch(re.escape(name) + r"_[0-9a-f]{20}", os.path.basename(o))),
+                      key=os.path.getmtime)
         for o in olds[:-3]:
             try:
                 os.remove(o)
